@@ -98,7 +98,7 @@ FParams == {[k |-> k, rule |-> r, max |-> m, evo |-> TRUE, elitism |-> TRUE, mut
               k \in 1..2, r \in {"any", "sum"}, m \in {8, 20}}
 FParamsq == {[k |-> 2, rule |-> r, max |-> 16, evo |-> TRUE, elitism |-> TRUE, mutate_elite |-> FALSE, target |-> FALSE] : r \in {"any", "sum"}}
 MCLoops == {[kind |-> kd, ne |-> ne, ls |-> ls, evo |-> ev, batch |-> 4, cap |-> 16] :
-              kd \in {"off", "on", "ma_off", "ma_on"}, ne \in {1, 2, 4}, ls \in {1, 2, 3, 8}, ev \in {4, 8}}
+              kd \in {"off", "on", "ma_off", "ma_on"}, ne \in {1, 2, 3, 4}, ls \in {1, 2, 3, 8}, ev \in {4, 8}}
            \cup {[kind |-> kd, ne |-> 1, ls |-> ls, evo |-> ev, batch |-> 4, cap |-> 16] :
               kd \in {"bandit", "offline"}, ls \in {1, 2}, ev \in {4, 8}}
 MCLoopsq == {l \in MCLoops : l.evo = 8 /\ l.ls \in {1, 3, 8}}
